@@ -310,7 +310,9 @@ def write_evidence(prop, tier, seed, level, merged, rule, assumptions, wall, nvi
         cov.update(extra)
     ev = {"property_id": prop, "tier": tier, "seed": int(seed), "level": level, "coverage": cov,
           "assumptions": assumptions, "wall_s": round(wall, 2), "violations": int(nviol)}
-    os.makedirs(os.path.join(VERIF, "evidence"), exist_ok=True)
-    with open(os.path.join(VERIF, "evidence", prop + ".json"), "w") as f:
+    # evidence describes runs against /repo; a run against a scratch tree (VERIF_REPO) keeps its file with its work files
+    evdir = os.path.join(VERIF, "evidence") if REPO == "/repo" else os.path.join(WORK, "evidence")
+    os.makedirs(evdir, exist_ok=True)
+    with open(os.path.join(evdir, prop + ".json"), "w") as f:
         json.dump(ev, f, indent=1)
     return ev
